@@ -927,6 +927,22 @@ theorem read_linearizable_run (hw : 0 < w) {s : St} (h : Reach w h2 s) {r k : Na
   cases this
   exact ⟨s0, a, b, c, d⟩
 
+/-- **What Range copies under the bucket lock is exactly the chain's mapping.**  Range locks the root bucket (so the writer is
+    idle) and copies every non-nil pointer: each of them is a complete mapping of its key (no half-done insertion or
+    deletion is visible), and no key occurs in two slots — every key of the chain is yielded exactly once. -/
+theorem locked_scan_exact (hw : 0 < w) {s : St} (h : Reach w h2 s) (hidle : s.m.wr = .idle) :
+    (∀ sl n, s.m.ptr sl = some n → Valid h2 s.m sl n.key n) ∧
+    (∀ sl sl' n n', s.m.ptr sl = some n → s.m.ptr sl' = some n' → n.key = n'.key → sl = sl') ∧
+    (∀ k n, Abs h2 s.m k (some n) → ∃ sl, s.m.ptr sl = some n ∧ sl < s.m.len * w) := by
+  have hi := (reach_inv w h2 hw h).1
+  refine ⟨?_, hi.uniq, ?_⟩
+  · intro sl n hp
+    rcases hi.coh sl n hp with hm | hd
+    · exact ⟨hm, hp, rfl⟩
+    · rw [hidle] at hd; cases hd
+  · intro k n ⟨sl, hv⟩
+    exact ⟨sl, hv.2.1, valid_lt w h2 hi hv⟩
+
 /-- a key is mapped by at most one slot, to one node -/
 theorem abs_unique (hw : 0 < w) {s : St} (h : Reach w h2 s) {k s1 s2 : Nat} {n1 n2 : Node}
     (h1 : Valid h2 s.m s1 k n1) (h2' : Valid h2 s.m s2 k n2) : s1 = s2 ∧ n1 = n2 := by
